@@ -1,17 +1,17 @@
 SPECIFICATION Spec
 CONSTANTS
   Codec = "bijective"
-  Place = "sequential"
+  Place = "byref"
   Window = 3
   WindowRows = 3
   MergeMode = "all"
-  Ordered = FALSE
+  Ordered = TRUE
   Offsets <- Off00
-  Rects = {}
-  MaxCells = 2
-  MaxMerges = 0
+  Rects <- WindowRects
+  MaxCells = 9
+  MaxMerges = 2
   MaxSheets = 1
-  Rots = {0}
+  Rots = {1, 6}
   Layouts <- LayStd
-INVARIANTS TypeOK PlacedByRef
+CONSTRAINT Emit
 CHECK_DEADLOCK FALSE
